@@ -44,8 +44,11 @@ def stream(name, n, shards, rule, driver="drv_codec", flush=False, **kw):
 
 
 ENC = lambda q, t: stream("codec.enc", {"quick": q, "thorough": t, "search": q}, {"quick": 8, "thorough": 16, "search": 8},
-    "random messages of ~60 target types per shard (18% with one class of non-representable value: non-finite float, out-of-range date / "
-    "timestamp, invalid UTF-8, undefined enum number, malformed decimal, empty / unresolvable Any) -> ProtoToJSON; Go oracle: strict "
+    "random messages of ~60 target types per shard (generated descriptors: enums declared in and out of numeric order and with gaps; the "
+    "showcase file g0 has objects flattened 1..7 levels deep with several properties in the innermost object, flattened members are "
+    "populated with probability 0.7 per level; 18% with one class of non-representable value: non-finite float, out-of-range date / "
+    "timestamp, invalid UTF-8, undefined enum number, malformed decimal, empty / unresolvable Any; for 1/3 of the messages holding a j5 "
+    "Any the unpopulated bytes fields of the Any are stored as empty non-nil slices, `(meta emptybytes)`) -> ProtoToJSON; Go oracle: strict "
     "RFC 8259 re-read, wire-format conformance against the message (C08), decode(encode(m)) == m (C01). Non-trivial = encode succeeded; "
     "distinct by root + message tree.")
 
@@ -54,7 +57,7 @@ DEC = lambda q, t: stream("codec.dec", {"quick": q, "thorough": t, "search": q},
     "spelling variations (quoted/bare numbers, float respelling, base64 alphabet / padding, enum prefix, RFC3339 offset, member "
     "reordering, whitespace, explicit nulls for absent members, \\u escapes), (4/8) exactly one fault (wrong type, unparsable / "
     "out-of-range number, invalid base64 / date / decimal / timestamp, unknown enum, unknown key, two keys in a oneof (J5 oneof object or two members of a plain proto oneof), contradicting "
-    "!type) at a random position (top / nested / array element / map value / oneof arm) -> JSONToProto. Go oracle: variation decodes to "
+    "!type before the arm key and as the last member) at a random position (top / nested / array element / map value / oneof arm) -> JSONToProto. Go oracle: variation decodes to "
     "the same message as the canonical spelling, fault is rejected, accepted => re-encode == canonDoc(document). Non-trivial = accepted "
     "document; distinct by root + document bytes.")
 
@@ -68,13 +71,17 @@ FUZZ = lambda q, t: stream("codec.fuzz", {"quick": q, "thorough": t, "search": q
     "wrong shapes, nesting to 1500, byte flips, oneof framing abuse, null elements, trailing data, invalid UTF-8, odd keys), raw inputs "
     "(empty, arbitrary bytes, JSON-ish characters, known nasty literals) against all target types incl. recursive ones; every 5th op a "
     "url.Values (empty / dotted / unknown / upper-cased keys into every property kind, 0..3 values incl. JSON text); every 40th a `tok` "
-    "op (tokenizer differential). Inputs <= 4 KiB (thorough 64 KiB). Go oracle: no panic, time bound, and for accepted documents the "
+    "op (tokenizer differential); every 25th a number with an exponent beyond the decimal limit (4097..3*10^6, e / E, signed, bare / "
+    "quoted) in a decimal or float member, array element, map value or query parameter. Inputs <= 4 KiB (thorough 64 KiB). Go oracle: "
+    "no panic, time bound, decoded message size <= 1024 * input + 8 KiB (c06-amplification), and for accepted documents the "
     "C03 exactness oracle. Non-trivial = accepted input; distinct by root + input.",
     flush=True, crash_signature="c06-crash", timeout_s=1500)
 
 STRESS = lambda q, t: stream("codec.stress", {"quick": q, "thorough": t, "search": q}, {"quick": 4, "thorough": 8, "search": 4},
     "Go only: recursive target types, nesting depth 10^3..2*10^4 (thorough 10^5) through object, array and oneof recursion, closed and "
     "unclosed, deep garbage inside an Any value, Any values nested 90..1600 (thorough 4600) deep in proto-expanding mode, arrays / strings / "
-    "maps up to 1 MiB (thorough 4 MiB); per-call bound 1.5 s + 5 us/byte, "
+    "maps up to 1 MiB (thorough 4 MiB), every 10th op a decimal / float exponent of 3*10^6..2^31-1 in every spelling; corpus "
+    "codec.stress.ops: 21 fixed exponent inputs (10^7 digits, 2^31-1 last); per-call bound 1.5 s + 5 us/byte, decoded message size "
+    "<= 1024 * input + 8 KiB, "
     "debug.SetMaxStack(256 MiB), 60 s watchdog.",
     driver=None, flush=True, crash_signature="c06-crash", timeout_s=1500, gomemlimit="12GiB", no_search=True)
